@@ -47,10 +47,10 @@ CLUSTERS = ("NN", "NN+", "NN++", "NNN", "NNN+", "NNN++")
 BPKINDS = ("BP", "NN+BP", "NNN+BP")
 SVD1_CLUSTERS = ("NN+", "NN++", "NNN++")       # clusters whose borders are rank-one (SVD-1) approximations
 SETUPS = ("lrtb", "tlbr", "rltb", "btrl", "lr", "rl", "tb", "bt", "l", "r", "t", "b", "lrt", "tbl")
-VAL_TOL = 2e-11          # |value - dense| <= VAL_TOL * prod ||O_i||   (observed <= ~1e-14)
-HERM_TOL = 1e-11         # ||g - g^H|| / (2 ||g||)                       (observed <= ~3e-16)
-PSD_TOL = 1e-11          # -lambda_min / ||g||
-STATE_TOL = 1e-10        # relative distance of the evolved state from the exact one, up to normalisation
+VAL_TOL = 5e-13          # |value - dense| <= VAL_TOL * prod ||O_i|| * conditioning   (observed <= ~1e-15)
+HERM_TOL = 2e-13         # ||g - g^H|| / (2 ||g||)                       (observed <= ~3e-16)
+PSD_TOL = 2e-13          # -lambda_min / ||g||                            (observed <= ~1e-16)
+STATE_TOL = 2e-12        # relative distance of the evolved state from the exact one, up to normalisation (observed <= 4e-15)
 TRUNC_TOL = 1e-6         # reported truncation_error (a square root of a round-off sized quantity)
 
 
